@@ -1,0 +1,54 @@
+//go:build verif
+// +build verif
+
+package rafthttp
+
+import (
+	"context"
+	"io"
+	"net/http"
+
+	"github.com/youzan/ZanRedisDB/pkg/types"
+	"github.com/youzan/ZanRedisDB/raft"
+	"github.com/youzan/ZanRedisDB/raft/raftpb"
+	"github.com/youzan/ZanRedisDB/stats"
+)
+
+// Exports for the verification harness (/verif, property C16, stream-level stage): a real
+// streamWriter (startStreamWriter, as peer.go starts it) to which the harness attaches
+// outgoing connections of its own.  Nothing here changes behaviour.
+
+type verifRaft struct{}
+
+func (verifRaft) Process(ctx context.Context, m raftpb.Message) error { return nil }
+func (verifRaft) IsPeerRemoved(id uint64) bool                        { return false }
+func (verifRaft) ReportUnreachable(id uint64, group raftpb.Group)     {}
+func (verifRaft) ReportSnapshot(id uint64, group raftpb.Group, status raft.SnapshotStatus) {
+}
+
+// VerifStreamWriter wraps a running streamWriter.
+type VerifStreamWriter struct{ w *streamWriter }
+
+// VerifStartStreamWriter is peer.go's
+// `startStreamWriter(peerID, status, fs, r)` with a raft that ignores every report.
+func VerifStartStreamWriter(peer types.ID) *VerifStreamWriter {
+	return &VerifStreamWriter{startStreamWriter(peer, newPeerStatus(peer), &stats.PeerStats{}, verifRaft{})}
+}
+
+// Attach hands the writer a new outgoing connection as the stream handler does
+// (`&outgoingConn{t, Writer, Flusher, Closer}`); v2 selects streamTypeMsgAppV2, otherwise
+// streamTypeMessage.
+func (v *VerifStreamWriter) Attach(v2 bool, w io.Writer, f http.Flusher, c io.Closer) bool {
+	t := streamTypeMessage
+	if v2 {
+		t = streamTypeMsgAppV2
+	}
+	return v.w.attach(&outgoingConn{t: t, Writer: w, Flusher: f, Closer: c})
+}
+
+// Writec is streamWriter.writec(): the channel messages are queued on (it is replaced when
+// a connection is closed) and whether a connection is attached.
+func (v *VerifStreamWriter) Writec() (chan<- raftpb.Message, bool) { return v.w.writec() }
+
+// Stop is streamWriter.stop().
+func (v *VerifStreamWriter) Stop() { v.w.stop() }
